@@ -1,7 +1,7 @@
 """Contracts: soupsieve.css_match.CSSMatch (C01, C03, C04, C05, C11, C12)."""
 from pyvc.dsl import contract
 from pyvc.types import INT, BOOL, STR, FLAGS, TOpt, TSeq
-from pyvc.tree import (NODE, SEQ_NODE, CSSMATCH, OPT_STR, SELLIST, SEL, SELTAG, SELATTR, SELNTH, SELCONTAINS, SELLANG, NSMAP)
+from pyvc.tree import (OPT_ATTRVAL, NODE, SEQ_NODE, CSSMATCH, OPT_STR, SELLIST, SEL, SELTAG, SELATTR, SELNTH, SELCONTAINS, SELLANG, NSMAP)
 
 M = 'soupsieve.css_match.CSSMatch.'
 WF = ['self.root is None or is_tag(self.root)']
@@ -86,7 +86,6 @@ contract(M + 'match_relations', params=REL, returns=BOOL, requires=['el is not N
          ensures=['result == sem_rel(self, self.namespaces, self.iframe_restrict, el, relation)'], properties=['C01'])
 
 for fn, params, spec in [
-    ('match_attributes', dict(self=CSSMATCH, el=NODE, attributes=TSeq(SELATTR)), 'sem_attrs(self, self.namespaces, el, attributes)'),
     ('match_lang', dict(self=CSSMATCH, el=NODE, langs=TSeq(SELLANG)), 'sem_lang(self, el, langs)'),
     ('match_contains', dict(self=CSSMATCH, el=NODE, contains=TSeq(SELCONTAINS)), 'sem_contains(self, el, contains)'),
 ]:
@@ -101,7 +100,8 @@ contract(M + 'match_selectors', params=dict(self=CSSMATCH, el=NODE, selectors=SE
                         invariant=['match == (_i1 > 0 and is_not)', 'is_not == selectors.is_not', 'is_html == selectors.is_html',
                                    'wf_from(selectors, _i1)',
                                    f'any_from({CTX}, el, selectors.selectors, _i1) == any_from({CTX}, el, selectors.selectors, 0)'])},
-         unfold=3, properties=['C01', 'C04', 'C05', 'C11'])
+         unfold=3, opaque_specs=['sem_nth', 'sem_attrs', 'sem_ids', 'sem_classes', 'sem_range'],
+         properties=['C01', 'C04', 'C05', 'C11'])
 contract(M + 'match', params=dict(self=CSSMATCH, el=NODE), returns=BOOL, requires=['ir_wf_list(self.selectors)'] + WF,
          ensures=[f'result == matches({CTX}, el)'], properties=['C03'])
 contract(M + 'select', params=dict(self=CSSMATCH, limit=INT), returns=SEQ_NODE, kind='generator',
@@ -182,3 +182,19 @@ contract(M + 'match_classes', params=dict(self=CSSMATCH, el=NODE, classes=TSeq(S
          loops={1: dict(var='c', invariant=['found', 'current_classes == class_list(el)',
                                             'all_classes(current_classes, classes, _i1) == all_classes(current_classes, classes, 0)'])},
          properties=['C01'])
+
+contract(M + 'match_attribute_name', params=dict(self=CSSMATCH, el=NODE, attr=STR, prefix=OPT_STR), returns=OPT_ATTRVAL,
+         requires=['el is not None'],
+         assumes=[],
+         ensures=['result == attr_lookup(self, self.namespaces, el, attr, prefix)'],
+         locals=dict(value=OPT_ATTRVAL, ns=OPT_STR, namespace=OPT_STR, name=OPT_STR),
+         loops={1: dict(assume_elem=['implies(not is_none(attr_ns(el, k)) and not self.is_xml, not is_none(attr_local(el, k)))'],
+                        invariant=['is_none(value)', '_seq1 == npairs(el)',
+                                   'find_attr(self, ns, el, attr, prefix, _seq1, _i1) == find_attr(self, ns, el, attr, prefix, _seq1, 0)']),
+                2: dict(invariant=['is_none(value)', '_seq2 == npairs(el)', 'find_ci(_seq2, attr, _i2) == find_ci(_seq2, attr, 0)'])},
+         properties=['C12', 'C11', 'C01'])
+contract(M + 'match_attributes', params=dict(self=CSSMATCH, el=NODE, attributes=TSeq(SELATTR)), returns=BOOL,
+         requires=['el is not None'],
+         ensures=['result == sem_attrs(self, self.namespaces, el, attributes)'],
+         loops={1: dict(var='a', invariant=['match', 'all_attrs(self, self.namespaces, el, attributes, _i1) == all_attrs(self, self.namespaces, el, attributes, 0)'])},
+         properties=['C01', 'C11', 'C12'])
